@@ -19,7 +19,11 @@ spec/redis/Cluster.tla with migration disabled and a loaded table:
     definition, the machine is Split / per-node FIFO / assembly by position; broken variants DedupKeys and AssembleByArrival
     must violate EqualsReference). TLC emits the complete space of argument lists up to the bound, WITH repeated keys, over
     every set of existing keys (@@VEC) and random programs (@@BEH); each is sent through the proxy as EXISTS, TOUCH, DEL,
-    UNLINK, MGET, MSET and judged against the single reference engine and against the specification's reply.
+    UNLINK, MGET, MSET and judged against the single reference engine and against the specification's reply. A per-key
+    command may fail (the node answers an error for one key, simredis scripted reply): the combination is an error reply
+    whenever a per-key command failed, MGET may carry it in the element's position (ClusterSplit.tla Allowed); the variant
+    MsetIgnoresChildErrors (MSET answers OK whatever its children were answered) must violate EqualsReference; stratum
+    child-error of cluster-split on the code.
 
 Modules owned (with C04): spec/redis/Cluster.tla, ClusterGen.tla, ClusterSplit.tla, ClusterSplitGen.tla, MC_Cluster*.cfg,
 MC_ClusterSplit*.cfg, Gen_Cluster*.cfg, Gen_ClusterSplit.cfg; harness/cases/cluster, harness/cmd/cluster; checks/clusterlib.py.
